@@ -80,7 +80,7 @@ impl Op {
         matches!(self.name, "FGET" | "FSET" | "PGET" | "PSET" | "BGET" | "BSET")
     }
     pub fn is_two_key(&self) -> bool {
-        matches!(self.name, "RENAME" | "RENAMENX" | "RPOPLPUSH")
+        matches!(self.name, "RENAME" | "RENAMENX" | "RPOPLPUSH" | "LMOVE" | "SORTSTORE" | "EVALSIE")
     }
     pub fn line(&self) -> String {
         let hk = |i: usize| hex(&self.keys[i]);
@@ -99,7 +99,9 @@ impl Op {
                 }
                 s
             }
-            "RENAME" | "RENAMENX" | "RPOPLPUSH" => format!("{} {} {}", self.name, hk(0), hk(1)),
+            "RENAME" | "RENAMENX" | "RPOPLPUSH" | "SORTSTORE" => format!("{} {} {}", self.name, hk(0), hk(1)),
+            "LMOVE" => format!("LMOVE {} {} {} {}", hk(0), hk(1), String::from_utf8_lossy(&self.vals[0]), String::from_utf8_lossy(&self.vals[1])),
+            "EVALSIE" => format!("EVALSIE {} {} {}", hk(0), hk(1), hex(&self.vals[0])),
             "MGET" | "DEL" | "EXISTS" | "BGET" => {
                 let mut s = format!("{} {}", self.name, self.keys.len());
                 for k in &self.keys {
@@ -212,6 +214,18 @@ pub async fn apply(st: &State, op: &Op) -> String {
         "RENAME" => r1(&st.execute(&Command::Rename(k0(), s(&op.keys[1]))).await),
         "RENAMENX" => r1(&st.execute(&Command::RenameNx(k0(), s(&op.keys[1]))).await),
         "RPOPLPUSH" => r1(&st.execute(&Command::RPopLPush(k0(), s(&op.keys[1]))).await),
+        "LMOVE" => {
+            let side = |v: &Vec<u8>| if v == b"L" { "LEFT".to_string() } else { "RIGHT".to_string() };
+            r1(&st.execute(&Command::LMove { source: k0(), dest: s(&op.keys[1]), wherefrom: side(&op.vals[0]), whereto: side(&op.vals[1]) }).await)
+        }
+        "SORTSTORE" => r1(&st.execute(&Command::Sort { key: k0(), store: Some(s(&op.keys[1])) }).await),
+        "EVALSIE" => r1(&st
+            .execute(&Command::Eval {
+                script: "if redis.call('EXISTS', KEYS[1]) == 1 then redis.call('SET', KEYS[2], ARGV[1]) return 1 else return 0 end".to_string(),
+                keys: vec![k0(), s(&op.keys[1])],
+                args: vec![sds(&op.vals[0])],
+            })
+            .await),
         "MGET" => match st.execute(&Command::MGet(skeys())).await {
             RespValue::Array(Some(vs)) => many(&vs),
             o => r1(&o),
@@ -471,7 +485,7 @@ impl Ctx {
 
 /// Which routing does the tree under test use for `hash_key`?  Observed, not assumed:
 /// `fast_set(k)` (hash_key_bytes) then `EXISTS k` (hash_key) hits iff both agree.
-async fn detect_routing() -> Ctx {
+async fn detect_routing(out: &mut Out) -> Ctx {
     let n = 4;
     let st = new_state(n);
     let keys = pool();
@@ -487,19 +501,34 @@ async fn detect_routing() -> Ctx {
     }
     let ctx = if pinned_ok && !all_hit {
         Ctx { fixed: false }
-    } else if all_hit {
-        Ctx { fixed: true }
     } else {
-        panic!("C03 harness: the routing of the tree under test matches neither replica (str::hash vs <[u8]>::hash, nor one hash for both): update h_str/h_bytes");
+        if !all_hit {
+            out.violation(
+                "C03:route-replica-mismatch",
+                "fast_set(k) then EXISTS k: the routing of the tree under test matches neither replica of the harness (str::hash vs <[u8]>::hash, nor one hash for both)",
+                json!({"shards": n, "ops": ["FSET k x", "EXISTS 1 k"], "keys": keys.iter().map(|k| hex(k)).collect::<Vec<_>>()}),
+            );
+        }
+        Ctx { fixed: true }
     };
-    // co-location of generic routes: SET a; RENAME a b; GET b hits iff gen(a) == gen(b)
-    for i in 0..24 {
-        let (a, d) = (&keys[i], &keys[i + 24]);
-        st.execute(&Command::set(s(a), sds(b"1"))).await;
-        st.execute(&Command::Rename(s(a), s(d))).await;
-        let hit = st.execute(&Command::Get(s(d))).await == RespValue::BulkString(Some(b"1".to_vec()));
-        assert_eq!(hit, ctx.gen(a, n) == ctx.gen(d, n), "C03 harness: replica of hash_key disagrees with the observed co-location of {:?} and {:?}", a, d);
-        st.execute(&Command::FlushDb).await;
+    // absolute shard of every generic route, without relying on any two-key behaviour: KEYS *
+    // concatenates the shards' replies in shard order, so the replica's shard index must be
+    // non-decreasing along the raw reply
+    for k in &keys {
+        st.execute(&Command::set(s(k), sds(b"1"))).await;
+    }
+    if let RespValue::Array(Some(vs)) = st.execute(&Command::Keys("*".into())).await {
+        let order: Vec<usize> = vs
+            .iter()
+            .filter_map(|v| if let RespValue::BulkString(Some(x)) = v { Some(ctx.gen(x, n)) } else { None })
+            .collect();
+        if order.windows(2).any(|w| w[0] > w[1]) || order.len() != keys.len() {
+            out.violation(
+                "C03:route-replica-mismatch",
+                "SET of 56 keys then KEYS *: the shard order of the reply contradicts the harness' replica of hash_key",
+                json!({"shards": n, "replica_shard_of_each_returned_key": order}),
+            );
+        }
     }
     ctx
 }
@@ -575,6 +604,32 @@ fn corpus(ctx: &Ctx) -> Vec<Case> {
         ops.push(Op::k("LRANGE", d));
     }
     cs.push(Case { n: 4, class: "two-key:RPOPLPUSH", ops });
+    // LMOVE, SORT … STORE, a two-key EVAL: routed by their first key like RENAME
+    let mut ops = Vec::new();
+    for (i, d) in p.iter().skip(1).take(20).enumerate() {
+        ops.push(Op::new("RPUSH", vec![p[0].clone()], vec![b"e1".to_vec(), b"e2".to_vec(), b"e0".to_vec()]));
+        let sides: [&[u8]; 2] = [b"L", b"R"];
+        ops.push(Op::new("LMOVE", vec![p[0].clone(), d.clone()], vec![sides[i % 2].to_vec(), sides[(i / 2) % 2].to_vec()]));
+        ops.push(Op::k("LRANGE", d));
+        ops.push(Op::k("LRANGE", &p[0]));
+    }
+    cs.push(Case { n: 4, class: "two-key:LMOVE", ops });
+    let mut ops = Vec::new();
+    for d in p.iter().skip(1).take(20) {
+        ops.push(Op::new("RPUSH", vec![p[0].clone()], vec![b"b".to_vec(), b"a".to_vec(), b"ab".to_vec()]));
+        ops.push(Op::k2("SORTSTORE", &p[0], d));
+        ops.push(Op::k("LRANGE", d));
+        ops.push(Op::new("DEL", vec![p[0].clone(), d.clone()], vec![]));
+    }
+    cs.push(Case { n: 4, class: "two-key:SORTSTORE", ops });
+    let mut ops = Vec::new();
+    for d in p.iter().skip(1).take(20) {
+        ops.push(Op::kv("SET", &p[0], b"1"));
+        ops.push(Op::new("EVALSIE", vec![p[0].clone(), d.clone()], vec![b"copied".to_vec()]));
+        ops.push(Op::k("GET", d));
+        ops.push(Op::new("DEL", vec![p[0].clone(), d.clone()], vec![]));
+    }
+    cs.push(Case { n: 4, class: "two-key:EVALSIE", ops });
     // MSETNX runs whole on the first key's shard
     let mut ops = Vec::new();
     for d in p.iter().skip(1).take(20) {
@@ -623,7 +678,8 @@ fn random_case(ctx: &Ctx, rng: &mut Rng) -> Case {
     let n = *rng.pick(&[2usize, 4, 4, 4, 16, 3, 8]);
     let class = *rng.pick(&[
         "generic", "generic", "generic", "mixed-consistent", "mixed-consistent", "mixed-consistent", "mixed-any",
-        "mixed-any", "two-key:RENAME", "two-key:RENAMENX", "two-key:RPOPLPUSH", "multi-key:MSETNX", "randomkey",
+        "mixed-any", "two-key:RENAME", "two-key:RENAMENX", "two-key:RPOPLPUSH", "two-key:LMOVE", "two-key:SORTSTORE",
+        "two-key:EVALSIE", "multi-key:MSETNX", "randomkey",
     ]);
     let p = pool();
     // key universe of the case
@@ -672,9 +728,17 @@ fn random_case(ctx: &Ctx, rng: &mut Rng) -> Case {
             let name: &'static str = match class {
                 "two-key:RENAME" => "RENAME",
                 "two-key:RENAMENX" => "RENAMENX",
+                "two-key:LMOVE" => "LMOVE",
+                "two-key:SORTSTORE" => "SORTSTORE",
+                "two-key:EVALSIE" => "EVALSIE",
                 _ => "RPOPLPUSH",
             };
-            Op::k2(name, &pick(rng), &pick(rng))
+            let (a, d) = (pick(rng), pick(rng));
+            match name {
+                "LMOVE" => Op::new("LMOVE", vec![a, d], vec![rng.pick(&[&b"L"[..], b"R"]).to_vec(), rng.pick(&[&b"L"[..], b"R"]).to_vec()]),
+                "EVALSIE" => Op::new("EVALSIE", vec![a, d], vec![val(rng)]),
+                _ => Op::k2(name, &a, &d),
+            }
         } else if class == "multi-key:MSETNX" && c < 50 {
             let ks = some_keys(rng, 1, 4);
             let vs = ks.iter().map(|_| val(rng)).collect();
@@ -729,32 +793,146 @@ fn random_case(ctx: &Ctx, rng: &mut Rng) -> Case {
     Case { n, class, ops }
 }
 
-/// is a 1-vs-N difference of this case explained by the hazard its class was built around?
-fn explained(ctx: &Case, c: &Ctx) -> bool {
-    let n = ctx.n;
-    match ctx.class {
-        "mixed-any" => {
-            // a key whose two hashes disagree has two homes as soon as both path kinds touch it;
-            // the final dump of this class reads every key through both paths
-            ctx.ops.iter().flat_map(|o| o.keys.iter()).any(|k| std::str::from_utf8(k).is_ok() && c.gen(k, n) != h_bytes(k, n))
+/// One generated case, waiting for the verdict of the predictor.
+pub struct Pending {
+    /// its op lines are `start..end` of the output
+    start: usize,
+    end: usize,
+    class: String,
+    /// the listed finding whose CAUSE is present in this case (the input class the current code
+    /// mishandles), if any
+    listed: Option<String>,
+    /// the 1-shard vs N-shard difference observed on the real code, if any
+    diverged: Option<(String, String, serde_json::Value)>,
+    shards: usize,
+}
+
+/// The CAUSE of a listed finding, looked for in the case itself (never a symptom):
+/// * two-key command X whose two keys live on DIFFERENT shards under the real route
+///   (`get_primary_key` routes it by the first key and it runs whole on that shard);
+/// * MSETNX whose keys span ≥ 2 shards (it runs whole on the first key's shard: it neither sees
+///   keys that exist elsewhere nor writes the others to their homes);
+/// * SCAN (every shard is asked for `SCAN 0 … COUNT n`, the cursors are dropped).
+/// A listed signature is used only if, in addition, the replies and the final keyspace of the
+/// real code are exactly what the MODEL of the current code predicts for the case (`resolve`).
+fn listed_cause(case: &Case, c: &Ctx) -> Option<String> {
+    let n = case.n;
+    match case.class {
+        "mixed-any" if !c.fixed => {
+            if case.ops.iter().flat_map(|o| o.keys.iter()).any(|k| std::str::from_utf8(k).is_ok() && c.gen(k, n) != h_bytes(k, n)) {
+                Some("C03:route-hash-mismatch:fast_set+generic".into())
+            } else {
+                None
+            }
         }
-        x if x.starts_with("two-key") => ctx.ops.iter().any(|o| o.is_two_key() && c.gen(&o.keys[0], n) != c.gen(&o.keys[1], n)),
-        "multi-key:MSETNX" => ctx.ops.iter().any(|o| o.name == "MSETNX" && o.keys.iter().any(|k| c.gen(k, n) != c.gen(&o.keys[0], n))),
-        "scan" => true,
-        // RANDOMKEY asks every shard since fix 4d9bd05: a difference is no longer expected
-        _ => false,
+        x if x.starts_with("two-key:") => {
+            let name = &x["two-key:".len()..];
+            if case.ops.iter().any(|o| o.name == name && c.gen(&o.keys[0], n) != c.gen(&o.keys[1], n)) {
+                Some(format!("C03:two-key:{}", name))
+            } else {
+                None
+            }
+        }
+        "multi-key:MSETNX" => {
+            if case.ops.iter().any(|o| o.name == "MSETNX" && o.keys.iter().any(|k| c.gen(k, n) != c.gen(&o.keys[0], n))) {
+                Some("C03:multi-key:MSETNX".into())
+            } else {
+                None
+            }
+        }
+        "scan" => {
+            if case.ops.iter().any(|o| o.name == "SCAN") {
+                Some("C03:scan-cursor".into())
+            } else {
+                None
+            }
+        }
+        _ => None,
     }
 }
 
-fn signature(class: &str) -> String {
-    match class {
-        "mixed-any" => "C03:route-hash-mismatch:fast_set+generic".into(),
-        "scan" => "C03:scan-cursor".into(),
-        x => format!("C03:{}", x),
+/// The predictor: the Lean model of the CURRENT code (`rvdriver C03`) is run on every op line of
+/// this run; a 1-vs-N difference is attributed to a listed finding only if its cause is in the case
+/// AND the code did exactly what the model predicts.  Anything else gets an unlisted signature
+/// with the concrete sequence — including a case where 1 and N shards agree with each other but not
+/// with the model (`C03:model-mismatch`).
+pub fn resolve(out: &mut Out, pend: Vec<Pending>) {
+    let (ops, imp): (Vec<String>, Vec<String>) = {
+        let (o, i) = out.lines();
+        (o.to_vec(), i.to_vec())
+    };
+    let driver = std::env::var("RVDRIVER").ok().map(std::path::PathBuf::from).or_else(|| {
+        let exe = std::env::current_exe().ok()?;
+        // ROOT/.build/harness-target/release/rvharness → ROOT/lean/.lake/build/bin/rvdriver
+        Some(exe.parent()?.parent()?.parent()?.parent()?.join("lean/.lake/build/bin/rvdriver"))
+    });
+    let model: Option<Vec<String>> = driver.filter(|d| d.exists()).and_then(|d| {
+        use std::io::Write;
+        let mut child = std::process::Command::new(d)
+            .arg("C03")
+            .stdin(std::process::Stdio::piped())
+            .stdout(std::process::Stdio::piped())
+            .spawn()
+            .ok()?;
+        let mut stdin = child.stdin.take()?;
+        let text = ops.join("\n") + "\n";
+        let writer = std::thread::spawn(move || {
+            let _ = stdin.write_all(text.as_bytes());
+        });
+        let outp = child.wait_with_output().ok()?;
+        let _ = writer.join();
+        Some(String::from_utf8_lossy(&outp.stdout).lines().map(|l| l.to_string()).collect())
+    });
+    let model = match model {
+        Some(m) if m.len() == ops.len() => m,
+        _ => {
+            out.violation("C03:predictor-unavailable", "the model driver (lean/.lake/build/bin/rvdriver, or $RVDRIVER) could not be run: no 1-vs-N difference can be attributed to a listed finding", json!({}));
+            for p in pend {
+                if let Some((at, what, replay)) = p.diverged {
+                    out.violation(&format!("C03:unattributed:{}:{}", p.class, at), &what, replay);
+                }
+            }
+            return;
+        }
+    };
+    let mut predicted = 0u64;
+    for p in pend {
+        let mism = (p.start..p.end).find(|&i| imp[i] != model[i]);
+        match (p.diverged, mism) {
+            (Some((at, what, replay)), None) => {
+                let sig = match &p.listed {
+                    Some(l) => {
+                        predicted += 1;
+                        l.clone()
+                    }
+                    None => format!("C03:unexplained:{}:{}", p.class, at),
+                };
+                out.violation(&sig, &what, replay);
+            }
+            (Some((at, what, mut replay)), Some(i)) => {
+                replay["model_of_current_code"] = json!({"op": ops[i], "code_answers": imp[i], "model_predicts": model[i]});
+                out.violation(
+                    &format!("C03:unpredicted:{}:{}", p.class, at),
+                    &format!("{}; this is NOT the listed behaviour: for `{}` the code answers {} where the model of the current code predicts {}", what, ops[i], imp[i], model[i]),
+                    replay,
+                );
+            }
+            (None, Some(i)) => {
+                let name = ops[i].split(' ').find(|t| t.chars().all(|c| c.is_ascii_uppercase())).unwrap_or("?").to_string();
+                out.violation(
+                    &format!("C03:model-mismatch:{}:{}", p.class, name),
+                    &format!("1 and {} shards agree with each other but not with the model of the current code: `{}` answers {} where the model predicts {}", p.shards, ops[i], imp[i], model[i]),
+                    json!({"shards": p.shards, "ops": ops[p.start..p.end].to_vec(), "code": imp[p.start..p.end].to_vec(), "model": model[p.start..p.end].to_vec(), "first_difference_at_line": i - p.start}),
+                );
+            }
+            (None, None) => {}
+        }
     }
+    out.count_n("listed-finding-attributed-after-prediction", predicted);
 }
 
-async fn run_case(out: &mut Out, ctx: &Ctx, case: &Case) {
+async fn run_case(out: &mut Out, pend: &mut Vec<Pending>, ctx: &Ctx, case: &Case) {
+    let start = out.n_ops();
     let st1 = new_state(1);
     let stn = new_state(case.n);
     let mut a1 = Vec::new();
@@ -790,12 +968,16 @@ async fn run_case(out: &mut Out, ctx: &Ctx, case: &Case) {
             ),
             None => ("DUMP".to_string(), format!("{} shards end with keyspace {} where one shard ends with {}", case.n, dn, d1)),
         };
-        let sig = if explained(case, ctx) { signature(case.class) } else { format!("C03:unexplained:{}:{}", case.class, at) };
-        out.violation(
-            &sig,
-            &what,
-            json!({"shards": case.n, "ops": lines, "first_difference_at": first, "one_shard": a1, "n_shards": an, "dump_one": d1, "dump_n": dn}),
-        );
+        pend.push(Pending {
+            start,
+            end: out.n_ops(),
+            class: case.class.to_string(),
+            listed: listed_cause(case, ctx),
+            diverged: Some((at, what, json!({"shards": case.n, "ops": lines, "first_difference_at": first, "one_shard": a1, "n_shards": an, "dump_one": d1, "dump_n": dn}))),
+            shards: case.n,
+        });
+    } else {
+        pend.push(Pending { start, end: out.n_ops(), class: case.class.to_string(), listed: None, diverged: None, shards: case.n });
     }
     let text = format!("{}|{}", case.n, case.ops.iter().map(|o| o.line()).collect::<Vec<_>>().join(";"));
     let shards_used: BTreeSet<usize> = universe(&case.ops).iter().map(|k| ctx.gen(k, case.n)).collect();
@@ -1043,7 +1225,8 @@ async fn detect_carries(ctx: &Ctx) -> String {
     bits.iter().collect()
 }
 
-async fn run_timed(out: &mut Out, carries: &str, n: usize, ops: &[TOp], label: &str) {
+async fn run_timed(out: &mut Out, pend: &mut Vec<Pending>, carries: &str, n: usize, ops: &[TOp], label: &str) {
+    let start = out.n_ops();
     let a1 = run_timed_on(1, ops).await;
     let an = run_timed_on(n, ops).await;
     let mut u: BTreeSet<Vec<u8>> = BTreeSet::new();
@@ -1071,12 +1254,21 @@ async fn run_timed(out: &mut Out, carries: &str, n: usize, ops: &[TOp], label: &
     if let Some(i) = (0..ops.len()).find(|&i| a1[i] != an[i]) {
         let kinds = ["generic", "fast_get", "fast_set", "pooled_fast_get", "pooled_fast_set", "fast_batch_get", "fast_batch_set"];
         let stale: Vec<&str> = carries.chars().zip(kinds.iter()).filter(|(c, _)| *c == '0').map(|(_, k)| *k).collect();
-        let sig = if stale.is_empty() { format!("C03:unexplained:timed:{}", ops[i].name) } else { format!("C03:stale-clock:{}", stale.join("+")) };
-        out.violation(
-            &sig,
-            &format!("{} shards answer `{}` with {} where one shard answers {}", n, lines[i], an[i], a1[i]),
-            json!({"shards": n, "ops": lines, "first_difference_at": i, "one_shard": a1, "n_shards": an, "message_kinds_not_adopting_the_time": stale}),
-        );
+        let listed = if stale.is_empty() { None } else { Some(format!("C03:stale-clock:{}", stale.join("+"))) };
+        pend.push(Pending {
+            start,
+            end: out.n_ops(),
+            class: "timed".into(),
+            listed,
+            diverged: Some((
+                ops[i].name.to_string(),
+                format!("{} shards answer `{}` with {} where one shard answers {}", n, lines[i], an[i], a1[i]),
+                json!({"shards": n, "ops": lines, "first_difference_at": i, "one_shard": a1, "n_shards": an, "message_kinds_not_adopting_the_time": stale}),
+            )),
+            shards: n,
+        });
+    } else {
+        pend.push(Pending { start, end: out.n_ops(), class: "timed".into(), listed: None, diverged: None, shards: n });
     }
     let expiring = ops.iter().any(|o| matches!(o.name, "SETPX" | "SETEX")) && ops.last().map(|o| o.now > 0).unwrap_or(false) && ops.iter().any(|o| o.is_read());
     out.case(&format!("timed|{}|{}", n, lines.join(";")), expiring);
@@ -1087,16 +1279,17 @@ pub fn run(a: &Args) {
     let mut out = Out::new(&a.out);
     let mut rng = Rng::new(a.seed);
     let rt = tokio::runtime::Builder::new_current_thread().enable_all().build().unwrap();
+    let mut pend: Vec<Pending> = Vec::new();
     rt.block_on(async {
-        let ctx = detect_routing().await;
+        let ctx = detect_routing(&mut out).await;
         out.extra.insert("hash_key_delegates_to_hash_key_bytes".into(), json!(ctx.fixed));
         for c in corpus(&ctx) {
-            run_case(&mut out, &ctx, &c).await;
+            run_case(&mut out, &mut pend, &ctx, &c).await;
         }
         let carries = detect_carries(&ctx).await;
         out.extra.insert("message_kinds_adopting_the_virtual_time(generic,fast_get,fast_set,pooled_get,pooled_set,batch_get,batch_set)".into(), json!(carries));
         for (tn, tops, label) in timed_corpus(&ctx) {
-            run_timed(&mut out, &carries, tn, &tops, &label).await;
+            run_timed(&mut out, &mut pend, &carries, tn, &tops, &label).await;
         }
         // every read path × every ttl state × traffic in between, once each, on every run
         {
@@ -1107,7 +1300,7 @@ pub fn run(a: &Args) {
                         let setter = if r.chance(1, 4) { "SETEX" } else { "SETPX" };
                         let n = *r.pick(&[2usize, 4, 8]);
                         let ops = ttl_pattern(&ctx, &mut r, n, path, ttl, between, setter);
-                        run_timed(&mut out, &carries, n, &ops, &format!("path={}:ttl={}:between={}", path, ttl, between)).await;
+                        run_timed(&mut out, &mut pend, &carries, n, &ops, &format!("path={}:ttl={}:between={}", path, ttl, between)).await;
                     }
                 }
             }
@@ -1115,11 +1308,11 @@ pub fn run(a: &Args) {
         for _ in 0..a.n {
             let mut r = rng.fork();
             let c = if r.chance(1, 7) { keys_case(&mut r, false) } else { random_case(&ctx, &mut r) };
-            run_case(&mut out, &ctx, &c).await;
+            run_case(&mut out, &mut pend, &ctx, &c).await;
             if r.chance(1, 6) {
                 if r.chance(1, 2) {
                     let (tn, tops) = timed_random(&ctx, &mut r);
-                    run_timed(&mut out, &carries, tn, &tops, "").await;
+                    run_timed(&mut out, &mut pend, &carries, tn, &tops, "").await;
                 } else {
                     let path = *r.pick(&READ_PATHS);
                     let ttl = *r.pick(&["before", "at", "after", "far"]);
@@ -1127,10 +1320,40 @@ pub fn run(a: &Args) {
                     let setter = if r.chance(1, 4) { "SETEX" } else { "SETPX" };
                     let n = *r.pick(&[2usize, 4, 8]);
                     let ops = ttl_pattern(&ctx, &mut r, n, path, ttl, between, setter);
-                    run_timed(&mut out, &carries, n, &ops, &format!("path={}:ttl={}:between={}", path, ttl, between)).await;
+                    run_timed(&mut out, &mut pend, &carries, n, &ops, &format!("path={}:ttl={}:between={}", path, ttl, between)).await;
                 }
             }
         }
     });
+    resolve(&mut out, pend);
+    // every multi-key command of the executor: proved shard-count-independent + generated, or a
+    // listed finding with its cause + generated, or not a ShardedActorState data command
+    {
+        let g = |n: &str| *out.dist.get(&format!("op:{}", n)).unwrap_or(&0);
+        let t = |n: &str| *out.dist.get(&format!("op:T:{}", n)).unwrap_or(&0);
+        let cov = json!({
+            "MGET": {"status": "proved (Routable: shards_refine_single; timed: shard_count_unobservable_timed)", "generated": g("MGET") + t("MGET")},
+            "MSET": {"status": "proved (Routable; timed)", "generated": g("MSET") + t("MSET")},
+            "DEL": {"status": "proved (Routable, 1 key and ≥ 2 keys)", "generated": g("DEL")},
+            "EXISTS": {"status": "proved (Routable; timed)", "generated": g("EXISTS") + t("EXISTS")},
+            "KEYS": {"status": "proved (Routable, up to order)", "generated": g("KEYS")},
+            "DBSIZE": {"status": "proved (Routable; timed)", "generated": g("DBSIZE") + t("DBSIZE")},
+            "FLUSHDB/FLUSHALL": {"status": "proved (Routable)", "generated": g("FLUSH")},
+            "RANDOMKEY": {"status": "proved (randomkey_refines)", "generated": g("RANDOMKEY")},
+            "fast_batch_get_pipeline": {"status": "proved (Routable; timed)", "generated": g("BGET") + t("BGET")},
+            "fast_batch_set_pipeline": {"status": "proved (Routable; timed)", "generated": g("BSET") + t("BSET")},
+            "RENAME": {"status": "same shard: proved (same_shard_two_key_refines); cross shard: listed finding C03:two-key:RENAME", "generated": g("RENAME")},
+            "RENAMENX": {"status": "same shard: proved; cross shard: listed finding C03:two-key:RENAMENX", "generated": g("RENAMENX")},
+            "RPOPLPUSH": {"status": "same shard: proved; cross shard: listed finding C03:two-key:RPOPLPUSH", "generated": g("RPOPLPUSH")},
+            "LMOVE": {"status": "same shard: proved; cross shard: listed finding C03:two-key:LMOVE", "generated": g("LMOVE")},
+            "SORT … STORE": {"status": "same shard: proved; cross shard: listed finding C03:two-key:SORTSTORE", "generated": g("SORTSTORE")},
+            "EVAL (2 keys)": {"status": "same shard: proved for the generated script; cross shard: listed finding C03:two-key:EVALSIE", "generated": g("EVALSIE")},
+            "MSETNX": {"status": "keys on one shard: proved (Routable); keys on ≥ 2 shards: listed finding C03:multi-key:MSETNX", "generated": g("MSETNX")},
+            "SCAN": {"status": "listed finding C03:scan-cursor (cursor arithmetic predicted by the model)", "generated": g("SCAN")},
+            "WATCH (several keys) / MULTI / EXEC": {"status": "not a ShardedActorState data command: transaction state lives in the connection (C05); EXEC replays through execute()", "generated": 0},
+            "SMOVE COPY SINTERSTORE SUNIONSTORE SDIFFSTORE ZUNIONSTORE ZINTERSTORE BITOP UNLINK TOUCH": {"status": "not implemented by the executor (Command::Unknown)", "generated": 0},
+        });
+        out.extra.insert("multi_key_command_coverage".into(), cov);
+    }
     out.finish("case = one command sequence (8..40 ops over 3..9 keys; corpus cases up to 80 ops) run on real ShardedActorState instances with 1 and N ∈ {2,3,4,8,16} shards and on the model: single-key string/list commands, MGET/MSET/DEL/EXISTS fan-out, KEYS/DBSIZE/FLUSH, fast/pooled/batch byte paths (incl. non-UTF-8 keys), two-key commands, MSETNX, SCAN, RANDOMKEY; KEYS / SCAN MATCH patterns of every shape (literal only for an existing / a missing key, `*`, `?`, classes, negated classes, ranges, degenerate ranges, unterminated `[`, empty classes, mixed) over keyspaces of 8..45 keys spread over the shards; plus timed streams (SET [PX|EX], GET, EXISTS, DBSIZE, MGET/MSET, fast/pooled GET/SET, fast_batch_get/set_pipeline with the simulated clock advanced between commands: random streams, and the structured pattern `deadline; clock just before / at / just past / far past it; traffic for other shards only or none; read through one path` for every read path — distribution under timed:path=…; non-trivial iff a TTL is set, time passes and something is read); distinct by shard count + op text; non-trivial iff its keys live on ≥ 2 shards and it contains a fan-out, byte-path or two-key command");
 }
